@@ -163,13 +163,24 @@ def _replay_file(pid, v):
     return p
 
 
+def _warm(mod, tier):
+    """Compile the jitted functions once in the parent. Only a speed-up: if the code under test raises here, the
+    jobs meet the same exception under their own oracles and report it as a violation."""
+    if hasattr(mod, "warm"):
+        try:
+            mod.warm(tier)
+        except BaseException as e:  # noqa
+            if isinstance(e, KeyboardInterrupt):
+                raise
+            print("  warm-up raised %s: %s (left to the jobs to judge)" % (type(e).__name__, str(e)[:200]))
+
+
 def run_check(pid, tier, seed, replay=None):
     t0 = time.time()
     mod = _load(pid)
     if replay:
         payload = json.loads(pathlib.Path(replay).read_text())
-        if hasattr(mod, "warm"):
-            mod.warm(tier)
+        _warm(mod, tier)
         r = mod.replay(payload["payload"]) if hasattr(mod, "replay") else _generic_replay(mod, payload["payload"])
         if r.n_violations:
             for v in r.violations[:5]:
@@ -179,8 +190,7 @@ def run_check(pid, tier, seed, replay=None):
         print("replay passed: property=%s %s" % (pid, replay))
         return 0
 
-    if hasattr(mod, "warm"):
-        mod.warm(tier)
+    _warm(mod, tier)
     jobs = mod.plan(tier, seed)
     total, herrs = execute(mod, jobs)
     if hasattr(mod, "finalize"):
